@@ -6,7 +6,7 @@ HERE="$(cd "$(dirname "$0")/.." && pwd)"
 w=$(mktemp -d /tmp/try_XXXXXX)
 trap 'rm -rf "$w"' EXIT
 mkdir "$w/mut"; git -C /repo archive HEAD | tar -x -C "$w/mut"
-(cd "$w/mut" && git init -q . && git apply "$(realpath "$1")/patch.diff")
+P="$(realpath "$1")/patch.diff"; (cd "$w/mut" && git init -q . && git apply "$P")
 cp -r "$HERE/lean" "$w/lean"
 set +e
 VERIF_REPO="$w/mut" VERIF_LEAN_DIR="$w/lean" VERIF_EVIDENCE_DIR="$w/ev" "$HERE/check" "$2" --tier "${3:-quick}" 2>&1 | grep -E "^\[|VIOLATION|->|CHECK-ERROR|Error" | cut -c1-400 | head -${TRY_LINES:-12}
